@@ -277,6 +277,20 @@ def check(ctx):
                               "a step that is already an absence step is inserted twice" if 3 in vals else
                               f"insert_absence_time_list([3, 5]) with step 3 already registered hands {sorted(vals)} to {c.recv.name} (expected [5])")
     ctx.require(n_calls >= 3, "expected the three fan-out calls in BaseProject.insert_absence_time_list")
+    # bookkeeping: afterwards the project's own absence_time_list holds every absence step exactly once (the remove path pops
+    # one log entry and one unit of `time` per recorded entry)
+    for st, ex in outs:
+        if ex is not None and ex[0] == "raise":
+            continue
+        v = st.heap.get(("self", "absence_time_list"))
+        con = f"{f.qualname}:bookkeeping"
+        ctx.instance(con, sample={"absence_time_list": repr(v)})
+        if not (isinstance(v, ListV) and all(isinstance(x, Poly) and x.is_const() for x in v.items)):
+            raise AnalysisError(f"R18.4: project.absence_time_list after insert_absence_time_list([3, 5]) is not determined ({v!r})")
+        got = sorted(x.const_value() for x in v.items)
+        if got != [3, 5]:
+            ctx.violation(con, f.loc(), f"after insert_absence_time_list([3, 5]) on a project whose absence_time_list was [3], the list is {got} (expected [3, 5], each step once): "
+                          "a later remove_absence_time_list() pops one entry (and one unit of time) per recorded step")
     ctx.end()
 
 
